@@ -24,7 +24,7 @@ CLAIMED = {
   "C13": "Relayed socket: data only after a CreatePermission success (all server reactions, up to 3 attempts), ChannelData only on a binding the server confirmed for that exact peer/number (also after repeated lost binds), own number per peer in range; ReadFrom returns queued payloads unchanged, honours deadline (also one set while a reader is blocked) and Close (repeatedly, also when the deallocating Refresh cannot be sent); inbound queues never block.",
   "C14": "Compositional (weaker than the other claims, see DESIGN.md C14): solver-checked ingredients on the real code - refresh intervals wired by NewUDPConn for all configurations, PeriodicTimer re-arms the full interval every round and stops cleanly (goroutine as cooperative thread), allocation / permission / binding refresh rounds (438 retry with the new nonce, every peer named, refresh iff older than the refresh age), Close stops the timers and sends Refresh(0), and the schedule inequality period + 3 transactions + jitter < server timeout from the constants in the code. In addition a co-simulation of the real relayed socket (with its periodic-timer goroutines) against the real server handlers on one virtual clock (library default cadences, lifetimes 2 min / 10 min / 1 h, hourly nonce expiry, idle client or two peers, up to 2 h of protocol time; timing concrete, data symbolic): server-side state never lapses, data still flows after silence, Close removes the allocation. Known finding close-with-stale-nonce (genuine, recorded): Close with a stale nonce leaves the allocation until it expires.",
   "C15": "Teardown balance: after expiry, DeleteAllocation, relay/listener failure or Manager.Close every socket is closed exactly once, every timer stopped, tables empty (also with three bindings), created/deleted events pair up, repeated deletes release and report nothing, failed Allocate/Connect (UDP and TCP transport) and EVEN-PORT probing leave nothing open or registered, nothing is released by something that does not own it.",
-  "C16": "TCP relay connection table and handlers: ids unique (also across allocations), bind succeeds iff right id and owner and only once, refused binds consume nothing and leave the deadline running, 30 s deadline armed and effective, Connect error mapping 403/446/447 (446 also when the peer is named in IPv4-mapped form), inbound connections need a permission, ConnectionBind starts both copy directions and cleans up; the manager lock is free on every path. Byte piping on the real io.Copy loops as goroutines over harness-driven streams: chunks in flight in both directions at once arrive unmodified, once and in order, and the end of either side closes both connections and forgets the id.",
+  "C16": "TCP relay connection table and handlers: ids unique (also across allocations), bind succeeds iff right id and owner and only once, refused binds consume nothing and leave the deadline running, 30 s deadline armed and effective, Connect error mapping 403/446/447 (446 also when the peer is named in IPv4-mapped form), inbound connections need a permission, ConnectionBind starts both copy directions and cleans up; the manager lock is free on every path. Client side (TCPAllocation dial/accept): the data connection is bound with exactly the id the server named, only after permission and Connect succeeded. Byte piping on the real io.Copy loops as goroutines over harness-driven streams: chunks in flight in both directions at once arrive unmodified, once and in order, and the end of either side closes both connections and forgets the id.",
   "C17": "Both credential generators against the matching handlers with clock, duration, secret, user (also containing ':') and realm symbolic (IA arithmetic): accepted at every instant up to the expiry time, rejected from one second after it, also on repeated validation; the returned key is the same term as GenerateAuthKey(username, realm, generated password); non-numeric usernames rejected. HMAC/MD5/base64 are uninterpreted functions.",
   "C18": "Sequential lock discipline on every path of every harness that serves C18 (lock balance, self-deadlock, recursive RLock, unlock of unheld mutex), the publication invariant at every callback, and guarded-by for the allocation table, permission tables and the client's transaction table. Scripted interleavings on the real code (cooperative goroutines, mutexes blocking across them, pre-emption where a harness fake holds a socket write, a dial or a lifecycle callback): teardown during a slow callback (reproduces the nil-timer crash of the unrepaired tree), teardown during a slow dial, a timer firing while a request is inside its socket write, a response during a retransmission, Close with a blocked reader. Interleavings that are not scripted, and data races as such, are outside the technique.",
   "C19": "Response correlation on every handler harness and on raw/structured server input (transaction id, method, destination, at most one response), Binding reports exactly the source address, Allocate success reports true mapped/relayed address and the lifetime armed (RESERVATION-TOKEN with EVEN-PORT), a retransmission gets the same success again without creating anything, any other Allocate (even malformed, even by another user) gets 437 with no change.",
